@@ -1,11 +1,20 @@
 """Which units decide which property (DESIGN.md 7, appendix D.2)."""
-from . import api_ops, seam, walks
+from . import api_ops, seam, walks, config
 
 VC = ("contract-based deductive verification: verification conditions generated on every run from the real ASTs "
       "(symbolic execution of each function against its sidecar contract, callee contracts at the seams) and "
       "discharged by z3 (cvc5 for z3-unknowns); ")
 
 PROPS = {
+    "C18": {
+        "units": [config.units, seam.units], "level": "proof", "design_ref": "7.18",
+        "technique": VC + "configure, reconfigure (an @contextmanager function executed with an ARBITRARY block at its yield: "
+                     "the block may reconfigure permanently and may raise), the transport handler closure and _send; "
+                     "object identity of config/mpm is exact (heap objects are concrete per path)",
+        "trusted_base": ["dataclasses.replace (functional update; TypeError for unknown fields)",
+                         "contextlib.contextmanager semantics (the block's exception is thrown at the yield)",
+                         "mpm.create is a contract slot (returns a new model for the identifier)"],
+    },
     "C03": {
         "units": [walks.units_c03], "level": "other", "design_ref": "7.3",
         "technique": VC + "multiwalk with both fetchers against an UNCONSTRAINED agent (arbitrary bindings): inductive invariant "
